@@ -28,6 +28,40 @@ class FNP(MathNP):
     complex128 = 'c16'
 
     @staticmethod
+    def arange(a, b=None, dtype=None):
+        """concrete bounds: NumPy's own array (a vectorised rewrite of a loop over DFT bins computes on concrete bin
+        indices exactly as the loop did); symbolic bounds: lazy array"""
+        import numpy as _np
+        if b is None:
+            a, b = 0, a
+        if not is_sym(a) and not is_sym(b):
+            return _np.arange(a, b, dtype=_np.float64 if dtype in ('f8', float) else None)
+        az, bz = _z(a), _z(b)
+        n = conc(SInt(z3.simplify(z3.If(bz - az > 0, bz - az, 0))))
+        return ND.fresh((n,), lambda idx: z3.ToReal(az + idx[0]), 'f8')
+
+    @staticmethod
+    def log(v):
+        import numpy as _np
+        if isinstance(v, _np.ndarray):
+            return _np.log(v)
+        return MathNP.log(v)
+
+    @staticmethod
+    def exp(v):
+        import numpy as _np
+        if isinstance(v, _np.ndarray) and v.dtype != object:
+            return _np.exp(v)
+        return MathNP.exp(v)
+
+    @staticmethod
+    def sqrt(v):
+        import numpy as _np
+        if isinstance(v, _np.ndarray) and v.dtype != object:
+            return _np.sqrt(v)
+        return MathNP.sqrt(v)
+
+    @staticmethod
     def zeros(n, dtype=None):
         if isinstance(n, tuple):
             n = n[0]
@@ -64,7 +98,23 @@ def load_filters(extra=None, decimal=True):
     # Fbank instantiates MelScaling itself: it must be the scales module loaded on the same symbolic numpy
     sc = loader.load_unit('scales', dict(np=FNP, max=smax, min=smin), name='scales_under_test')
     ns['MelScaling'] = sc['MelScaling']
+    # mutable class-level state (a cache declared on the class is shared by all instances and would otherwise survive from
+    # one explored path to the next): remembered as loaded, restored by reset_class_state() at the start of every path
+    import copy
+    snap = {}
+    for name, obj in list(ns.items()):
+        if isinstance(obj, type) and getattr(obj, '__module__', None) == 'filters_under_test':
+            for k, v in list(vars(obj).items()):
+                if isinstance(v, (dict, list, set)) and not k.startswith('__'):
+                    snap[(name, k)] = copy.deepcopy(v)
+    ns['__class_state__'] = snap
     return ns
+
+
+def reset_class_state(ns):
+    import copy
+    for (name, k), v in ns.get('__class_state__', {}).items():
+        setattr(ns[name], k, copy.deepcopy(v))
 
 
 def stub_alias(ns):
